@@ -142,7 +142,7 @@ func cmdWorker(args []string) {
 	fs := flag.NewFlagSet("worker", flag.ExitOnError)
 	prop := fs.String("property", "", "")
 	hs := fs.String("harnesses", "", "")
-	_ = fs.String("tier", "quick", "")
+	tier := fs.String("tier", "quick", "")
 	out := fs.String("out", "", "")
 	verbose := fs.Int("v", 0, "")
 	seed := fs.Int64("seed", 0, "")
@@ -167,7 +167,7 @@ func cmdWorker(args []string) {
 	var sel []*HarnessCfg
 	pkgSet := map[string]bool{}
 	for _, h := range c.Harnesses {
-		if want[h.Name] {
+		if want[h.Name] && inTier(h, *tier) {
 			sel = append(sel, h)
 			pkgSet[h.Pkg] = true
 		}
